@@ -19,7 +19,6 @@ import (
 	"verif/h"
 	"verif/ref"
 	"verif/tape"
-	"verif/tk"
 )
 
 type sigDef struct {
@@ -302,5 +301,4 @@ func signSection(x *h.X) {
 		}
 	}
 	distinct(x, "signature-ignores-drawn-byte", desc, "signatures under tapes differing in one drawn byte (index 0 = unmodified tape)", images)
-	_ = tk.Hex
 }
